@@ -368,6 +368,16 @@ struct Explorer {
 };
 Explorer gEx;
 bool gFailed = false;
+CaseBase* gCurCase = nullptr;
+
+void SetClass(const char* cls) {
+  const char* tag = gCurCase != nullptr ? gCurCase->ClassTag() : nullptr;
+  if (tag != nullptr && tag[0] != 0) {
+    std::snprintf(gRec->cls, sizeof gRec->cls, "%s:%s", cls, tag);
+  } else {
+    std::snprintf(gRec->cls, sizeof gRec->cls, "%s", cls);
+  }
+}
 
 int gMode = 0;  // 1 explore (in-process loop), 2 child of one/minimize
 void (*gOnAbort)() = nullptr;
@@ -405,7 +415,7 @@ void StepBudgetCheck() {
   if (++gEx.steps > gEx.budget) {
     if (!gFailed) {
       gFailed = true;
-      std::snprintf(gRec->cls, sizeof gRec->cls, "NO_PROGRESS");
+      SetClass("NO_PROGRESS");
       std::snprintf(gRec->msg, sizeof gRec->msg, "scenario did not finish within %llu choice points (livelock or lost wake-up under fair scheduling)",
                     static_cast<unsigned long long>(gEx.budget));
       gRec->fail_seq = gEx.seq;
@@ -628,7 +638,7 @@ void Fail(const char* cls, const char* fmt, ...) {
   }
   gFailed = true;
   auto& r = *gRec;
-  std::snprintf(r.cls, sizeof r.cls, "%s", cls);
+  SetClass(cls);
   va_list ap;
   va_start(ap, fmt);
   std::vsnprintf(r.msg, sizeof r.msg, fmt, ap);
@@ -752,10 +762,12 @@ bool ExecuteCase(const RunInput& in, RunOutput& out) {
     j.End();
     out.describe = j.s;
   }
+  gCurCase = c;
   const char* key = c->Known();
   out.known_key = key;
   if (key != nullptr && gKnownEnabled.count(key) != 0 && gMode == 1) {
     out.skipped_known = true;
+    gCurCase = nullptr;
     delete c;
     gRec->state = 0;
     return false;
@@ -811,7 +823,7 @@ bool ExecuteCase(const RunInput& in, RunOutput& out) {
       if (!finished) {
         if (!gFailed) {
           gFailed = true;
-          std::snprintf(gRec->cls, sizeof gRec->cls, "DEADLOCK");
+          SetClass("DEADLOCK");
           std::snprintf(gRec->msg, sizeof gRec->msg,
                         "nothing runnable and nothing sleeping, but the scenario has not finished: some fiber is parked forever "
                         "(lost wake-up / lost completion)");
@@ -839,7 +851,26 @@ bool ExecuteCase(const RunInput& in, RunOutput& out) {
   ++gUntracked;
   yaclib::fault::Scheduler::Set(nullptr);
   c->Finish();
+  char tagbuf[48] = {0};
+  if (const char* tag = c->ClassTag()) {
+    std::snprintf(tagbuf, sizeof tagbuf, "%s", tag);
+  }
+  gCurCase = nullptr;
   delete c;
+  struct TagOnly final : CaseBase {
+    const char* t;
+    void Generate(Gen&) final {
+    }
+    void Describe(Json&) const final {
+    }
+    void Run() final {
+    }
+    const char* ClassTag() const final {
+      return t;
+    }
+  } tag_only;
+  tag_only.t = tagbuf;
+  gCurCase = &tag_only;
   if (!gFailed && detail::gTrackedLive != tracked_base) {
     Fail(detail::gTrackedLive > tracked_base ? "LEAK_OBJECT" : "OVER_DESTROY",
          "%lld Tracked objects (payloads / functor captures) still alive at quiescence", detail::gTrackedLive - tracked_base);
@@ -847,6 +878,7 @@ bool ExecuteCase(const RunInput& in, RunOutput& out) {
   if (!gFailed && gLive != 0) {
     Fail("LEAK", "%lld heap blocks allocated during the run are still live at quiescence", gLive);
   }
+  gCurCase = nullptr;
   auto& r = *gRec;
   r.hash = e.hash;
   r.steps = e.steps;
@@ -1188,7 +1220,7 @@ std::string RunInChild(RunRecord* shared, const RunInput& in, int runs, std::str
 }
 
 int RunsFor(const std::string& cls) {
-  return (cls == "LEAK" || cls == "LEAK_OBJECT" || cls.empty()) ? 2 : 1;
+  return (cls.rfind("LEAK", 0) == 0 || cls.empty()) ? 2 : 1;
 }
 
 // violation class used for "same violation" comparisons: strip volatile detail after the second ':' for sanitizer reports
@@ -1478,7 +1510,7 @@ int Explore(const Args& a) {
     }
     auto& r = *gRec;
     bool failed = r.cls[0] != 0;
-    if (failed && (std::strcmp(r.cls, "LEAK") == 0)) {
+    if (failed && (std::strcmp(r.cls, "LEAK") == 0 || std::strncmp(r.cls, "LEAK:", 5) == 0)) {
       // confirm in-process: same tape, same schedule, once more (first-use allocations cannot repeat)
       RunInput again;
       again.replay_tape = true;
@@ -1490,7 +1522,7 @@ int Explore(const Args& a) {
       RunOutput out2;
       CountersEndRun(false);
       ExecuteCase(again, out2);
-      if (std::strcmp(r.cls, "LEAK") != 0) {
+      if (std::strcmp(r.cls, "LEAK") != 0 && std::strncmp(r.cls, "LEAK:", 5) != 0) {
         failed = r.cls[0] != 0;
         ++gStats.leak_unconfirmed;
       }
